@@ -37,6 +37,9 @@ REACTIONS = {
                          allowed_interaction_types=["strong"]),
     "d0_k_3pi_cascade": dict(initial_state="D0", final_state=["K-", "pi+", "pi+", "pi-"], allowed_intermediate_particles=["a(1)(1260)+", "rho(770)0"],
                              allowed_interaction_types=["weak", "strong"]),
+    # two parity-conserving nodes that both have eta = -1 (eta_c) interfering with other resonances
+    "jpsi_gamma_p_pbar": dict(initial_state=("J/psi(1S)", [-1, +1]), final_state=["gamma", "p", "p~"],
+                              allowed_intermediate_particles=["eta(c)(1S)", "f(0)(2020)", "f(2)(2010)"], allowed_interaction_types=["strong", "EM"]),
     # partial helicity sets of initial AND final states
     "jpsi_k0_sigma_pbar_partial": dict(initial_state=("J/psi(1S)", [-1, +1]), final_state=["K0", "Sigma+", ("p~", [+0.5])],
                                        allowed_intermediate_particles=["Sigma(1660)", "N(1650)"], allowed_interaction_types=["strong"]),
